@@ -111,7 +111,7 @@ func withdrawOnNormalForms(c *Ctx, fs *formSet, verbose bool) {
 	c0 := &Ctx{Obls: append([]Obligation{}, c.Obls...)}
 	for i := range c.Prop.Rules {
 		r := &c.Prop.Rules[i]
-		if failing[r.ID] == 0 {
+		if failing[r.ID] == 0 || r.SourceOnly {
 			continue
 		}
 		var order []formSpec
